@@ -705,6 +705,7 @@ struct Gen {
         const bool tiny = cfg.tiny_values && r.chance(20, 100);  // products land in the subnormal range
         int a = new_raw(T_F64, 2 * m, true, tiny ? -(int)r.range(500, 520) : vb), b = new_raw(T_F64, 2 * m, true, tiny ? -(int)r.range(500, 520) : (int)r.range(1, 30));
         uint64_t al = r.below(100);
+        if (r.chance(8, 100)) b = a;  // the same vector as both factors (a square)
         c.s[1] = a;
         c.s[2] = b;
         c.s[0] = al < 12 ? a : al < 24 ? b : new_raw(T_F64, 2 * m, false, 0);
